@@ -21,7 +21,7 @@ func c13Scenario(clients []gridClient) *explore.Scenario {
 			g := clients[x.Choose("client", len(clients))]
 			smax := maxes[x.Choose("srv.max", len(maxes))]
 			legacy := x.Choose("srv.legacy", 2) == 1 // negotiate from legacy_version only
-			canary := x.Choose("srv.canary", 3)       // 0 honest, 1 stripped, 2 forged (DOWNGRD sentinel forced)
+			canary := x.Choose("srv.canary", 4)       // 0 honest, 1 stripped, 2 / 3 forged: RFC 8446 sentinel DOWNGRD\x01 / DOWNGRD\x00
 			cliCfg := x.Choose("cli.versions", 3) // 0 untouched Config, 1 Config.MinVersion = TLS 1.0, 2 Config.MaxVersion = TLS 1.2
 			h0, err := g.probeHello()
 			if err != nil {
@@ -87,6 +87,9 @@ func c13Scenario(clients []gridClient) *explore.Scenario {
 				case 2:
 					copy(rnd[24:], []byte("DOWNGRD\x01"))
 					sentinelForced = true
+				case 3:
+					copy(rnd[24:], []byte("DOWNGRD\x00"))
+					sentinelForced = true
 				}
 			}
 			what := fmt.Sprintf("%s client-config=%d server{max=%04x legacy=%v canary=%d}", g.Name, cliCfg, smax, legacy, canary)
@@ -130,11 +133,11 @@ func c13Scenario(clients []gridClient) *explore.Scenario {
 					r.Violate(fmt.Sprintf("C13|unadvertised-version|client=%s|negotiated=%04x", g.Name, cs.Version), "%s: handshake completed at version %04x, but the ClientHello advertised only %04x (supported_versions present: %v)", what, cs.Version, advList, h0.Find(43) != nil)
 				}
 				if sentinelForced && adv[tls.VersionTLS13] && cs.Version < tls.VersionTLS13 {
-					r.Violate("C13|downgrade-sentinel-accepted", "%s: the client offered TLS 1.3 and accepted a %04x ServerHello carrying the RFC 8446 downgrade sentinel", what, cs.Version)
+					r.Violate(fmt.Sprintf("C13|downgrade-sentinel-accepted|sentinel=%d|negotiated=%04x", canary, cs.Version), "%s: the client offered TLS 1.3 and accepted a %04x ServerHello carrying the RFC 8446 downgrade sentinel", what, cs.Version)
 				}
 			}
 			r.Obs = fmt.Sprintf("done=%v|vers=%04x|err=%s", done, cs.Version, errClass(hs.CErr))
-			if legacy && canary == 2 {
+			if legacy && canary >= 2 {
 				r.Sample = map[string]any{"case": what, "advertised": fmt.Sprintf("%04x", advList), "completed": done, "version": fmt.Sprintf("%04x", cs.Version), "client_error": fmt.Sprint(hs.CErr)}
 			}
 			return
@@ -153,7 +156,7 @@ func c13Scenarios(thorough bool) []*explore.Scenario {
 func init() {
 	register(&Prop{ID: "C13", Level: "exploration", Variant: "A", Scenarios: c13Scenarios,
 		Run: func(c *explore.Check, thorough bool) {
-			c.Rule = "every discovered ID, randomized seeds, custom specs (+ fingerprinted copies in thorough) x server MaxVersion {1.3,1.2,1.1,1.0} x {honours supported_versions, negotiates from legacy_version only (verif hook)} x downgrade canary {as the server sets it, stripped, RFC 8446 sentinel forced}: a completed handshake must be at a version in the advertised set parsed from the wire (supported_versions if present, else [spec minimum .. legacy_version]); with TLS 1.3 advertised a <=1.2 ServerHello carrying the sentinel must be refused. distinct = (client, server behaviour)"
+			c.Rule = "every discovered ID, randomized seeds, custom specs (+ fingerprinted copies in thorough) x server MaxVersion {1.3,1.2,1.1,1.0} x {honours supported_versions, negotiates from legacy_version only (verif hook)} x downgrade canary {as the server sets it, stripped, each of the two RFC 8446 sentinels DOWNGRD\\x01 / DOWNGRD\\x00 forced}: a completed handshake must be at a version in the advertised set parsed from the wire (supported_versions if present, else [spec minimum .. legacy_version]); with TLS 1.3 advertised a <=1.2 ServerHello carrying either sentinel must be refused (RFC 8446 4.1.3: a TLS 1.3 client checks both values). distinct = (client, server behaviour)"
 			c.Assumptions = []string{"the server is the utls Server with hooks H3/H4; canary edits go through the ServerHello random hook, so the server stays self-consistent"}
 			runAll(c, c13Scenarios(thorough), 0)
 			c.Gate(c.Total.Counters["completed"] > 200, "non-vacuity: %d completed handshakes", c.Total.Counters["completed"])
